@@ -322,7 +322,7 @@ func (g *c02Gen) block(depth int) string {
 				fmt.Sprintf(`<svg viewBox="0 0 4 4"><desc><style>a > b { color: red }</style>%s</desc><title><script>if (a < b && c > d) { e("f") }</script></title><rect width="1" height="1"></rect></svg>`, g.text()),
 			})
 		}
-		return fmt.Sprintf(`<svg%s viewBox="0 0 10 10"><circle cx="5" cy="5" r="4"></circle><path d="M0 0L1 1" fill="%s"></path><use xlink:href="#i%d" xml:lang="en"></use><text>%s</text></svg>`, g.attrs(), g.attrVal(), g.r.Intn(3), g.text())
+		return fmt.Sprintf(`<svg%s xmlns="http://www.w3.org/2000/svg" xmlns:xlink="http://www.w3.org/1999/xlink" viewBox="0 0 10 10"><circle cx="5" cy="5" r="4"></circle><path d="M0 0L1 1" fill="%s"></path><use xlink:href="#i%d" xml:lang="en"></use><text>%s</text></svg>`, g.attrs(), g.attrVal(), g.r.Intn(3), g.text())
 	case 12:
 		return fmt.Sprintf("<blockquote%s><p>%s</p></blockquote>", g.attrs("cite"), g.inline(1))
 	case 13:
